@@ -642,6 +642,16 @@ func (v Value) opNeq(b Value) Value { return Bool(!v.Equals(b)) }
 
 func (v Value) Equals(b Value) bool {
 	v, b = v.adopt(b.t), b.adopt(v.t)
+	if (v.t == TypeNil) != (b.t == TypeNil) {
+		// a number, bool or string held by an any-typed operand is never nil
+		o := v
+		if v.t == TypeNil {
+			o = b
+		}
+		if o.t == TypeBool || o.t == TypeString || o.t&isNumericMask != 0 {
+			return false
+		}
+	}
 	switch {
 	case v.t == TypeBool:
 		return v.num == b.num
